@@ -1,5 +1,8 @@
 // F-model harnesses for block-graph edits (C06), unknown blocks (C03), copying (C11) and shape cloning (C14).
 #include "fmodel.h"
+// C06 assertions can be switched off so that a run goes on to the C07 table walker at the end of h_c06
+static bool g_c06_asserts = true;
+#define C06_ASSERT(c, msg) do { if (g_c06_asserts) sym_assert(c, msg); } while (0)
 #include "fm_walk.h"
 
 struct Rec {
@@ -39,25 +42,25 @@ static int index_of(NiHeader& hdr, NiObject* o) {
 static void check_edit(NifFile& nif, const Snap& s, NiObject* replacedOld, NiObject* replacedNew) {
 	NiHeader& hdr = nif.GetHeader();
 	uint32_t n = hdr.GetNumBlocks();
-	sym_assert(n == hdr.blocks->size() && hdr.blockTypeIndices.size() == n, "C06-count: header block count / type-index table disagree with the block list");
+	C06_ASSERT(n == hdr.blocks->size() && hdr.blockTypeIndices.size() == n, "C06-count: header block count / type-index table disagree with the block list");
 	if (hdr.GetVersion().File() >= V20_2_0_5)
-		sym_assert(hdr.blockSizes.size() == n, "C06-sizes: block size table length differs from the block count");
+		C06_ASSERT(hdr.blockSizes.size() == n, "C06-sizes: block size table length differs from the block count");
 	for (uint32_t i = 0; i < n; i++) {
 		NiObject* b = hdr.GetBlock<NiObject>(i);
-		sym_assert(b != nullptr, "C06-null: empty slot in the block list");
+		C06_ASSERT(b != nullptr, "C06-null: empty slot in the block list");
 		for (uint32_t j = i + 1; j < n; j++)
-			sym_assert(hdr.GetBlock<NiObject>(j) != b, "C06-duplicate: two slots hold the same block");
+			C06_ASSERT(hdr.GetBlock<NiObject>(j) != b, "C06-duplicate: two slots hold the same block");
 		if (b)
-			sym_assert(hdr.GetBlockTypeStringById(i) == b->GetBlockName(), "C06-typename: header type name differs from the block in that slot");
+			C06_ASSERT(hdr.GetBlockTypeStringById(i) == b->GetBlockName(), "C06-typename: header type name differs from the block in that slot");
 	}
-	sym_assert(hdr.numBlockTypes == hdr.blockTypes.size(), "C06-typecount: type counter differs from the type table");
+	C06_ASSERT(hdr.numBlockTypes == hdr.blockTypes.size(), "C06-typecount: type counter differs from the type table");
 	for (size_t t = 0; t < hdr.blockTypes.size(); t++) {
 		bool used = false;
 		for (auto ti : hdr.blockTypeIndices)
 			used |= (ti == t);
-		sym_assert(used, "C06-unused-type: type table keeps a name no block uses");
+		C06_ASSERT(used, "C06-unused-type: type table keeps a name no block uses");
 		for (size_t u = t + 1; u < hdr.blockTypes.size(); u++)
-			sym_assert(hdr.blockTypes[t].get() != hdr.blockTypes[u].get(), "C06-dup-type: type table lists a name twice");
+			C06_ASSERT(hdr.blockTypes[t].get() != hdr.blockTypes[u].get(), "C06-dup-type: type table lists a name twice");
 	}
 	for (auto& rc : s.recs) {
 		if (rc.owner == replacedOld || index_of(hdr, rc.owner) < 0)
@@ -65,9 +68,9 @@ static void check_edit(NifFile& nif, const Snap& s, NiObject* replacedOld, NiObj
 		NiObject* now = hdr.GetBlock<NiObject>(rc.ref->index);
 		NiObject* expect = rc.target == replacedOld && replacedOld ? replacedNew : rc.target;
 		if (expect && index_of(hdr, expect) < 0)
-			sym_assert(rc.ref->IsEmpty(), "C06-stale: reference to a deleted block is not empty");
+			C06_ASSERT(rc.ref->IsEmpty(), "C06-stale: reference to a deleted block is not empty");
 		else
-			sym_assert(now == expect, "C06-rewired: a reference designates a different block after the edit");
+			C06_ASSERT(now == expect, "C06-rewired: a reference designates a different block after the edit");
 	}
 }
 
@@ -82,7 +85,9 @@ static NiObject* fresh_block(int kind) {
 
 // K symbolic operations on a small graph (or on an empty model when feat < 0)
 // firstOp >= 0 pins the first operation (used to split the exploration over parallel jobs)
-extern "C" void h_c06(int ver, int feat, int nops, int firstOp) {
+// tablesOnly: C06's own assertions are off; only the C07 header-table walker at the end judges the result
+extern "C" void h_c06(int ver, int feat, int nops, int firstOp, int tablesOnly) {
+	g_c06_asserts = !tablesOnly;
 	NifFile nif;
 	if (feat >= 0)
 		fm_build(nif, ver, feat);
@@ -103,7 +108,7 @@ extern "C" void h_c06(int ver, int feat, int nops, int firstOp) {
 			sym_assume(kind < 2);
 			NiObject* nb = fresh_block(kind);
 			uint32_t id = hdr.AddBlock(std::unique_ptr<NiObject>(nb));
-			sym_assert(id == n && hdr.GetBlock<NiObject>(id) == nb, "C06-add: AddBlock does not append the new block");
+			C06_ASSERT(id == n && hdr.GetBlock<NiObject>(id) == nb, "C06-add: AddBlock does not append the new block");
 			check_edit(nif, s, nullptr, nullptr);
 		}
 		else if (op == 1) {
@@ -111,12 +116,12 @@ extern "C" void h_c06(int ver, int feat, int nops, int firstOp) {
 			sym_assume(i < n || i == NIF_NPOS);
 			NiObject* victim = i < n ? s.objs[i] : nullptr;
 			hdr.DeleteBlock(i);
-			sym_assert(hdr.GetNumBlocks() == (victim ? n - 1 : n), "C06-delete-count: block count after DeleteBlock");
+			C06_ASSERT(hdr.GetNumBlocks() == (victim ? n - 1 : n), "C06-delete-count: block count after DeleteBlock");
 			if (victim)
-				sym_assert(index_of(hdr, victim) == -1, "C06-delete: deleted block still present");
+				C06_ASSERT(index_of(hdr, victim) == -1, "C06-delete: deleted block still present");
 			for (size_t j = 0; j < s.objs.size(); j++)
 				if (s.objs[j] != victim)
-					sym_assert(index_of(hdr, s.objs[j]) >= 0, "C06-delete-other: DeleteBlock removed another block");
+					C06_ASSERT(index_of(hdr, s.objs[j]) >= 0, "C06-delete-other: DeleteBlock removed another block");
 			check_edit(nif, s, nullptr, nullptr);
 		}
 		else if (op == 2) {
@@ -127,7 +132,7 @@ extern "C" void h_c06(int ver, int feat, int nops, int firstOp) {
 			NiObject* nb = fresh_block(kind);
 			NiObject* old = s.objs[i];
 			uint32_t id = hdr.ReplaceBlock(i, std::unique_ptr<NiObject>(nb));
-			sym_assert(id == i && hdr.GetBlock<NiObject>(i) == nb && hdr.GetNumBlocks() == n, "C06-replace: ReplaceBlock does not put the new block into the old slot");
+			C06_ASSERT(id == i && hdr.GetBlock<NiObject>(i) == nb && hdr.GetNumBlocks() == n, "C06-replace: ReplaceBlock does not put the new block into the old slot");
 			check_edit(nif, s, old, nb);
 		}
 		else if (op == 3) {
@@ -139,9 +144,9 @@ extern "C" void h_c06(int ver, int feat, int nops, int firstOp) {
 			order[a] = b;
 			order[b] = a;
 			hdr.SetBlockOrder(order);
-			sym_assert(hdr.GetNumBlocks() == n, "C06-order-count: SetBlockOrder changed the block count");
+			C06_ASSERT(hdr.GetNumBlocks() == n, "C06-order-count: SetBlockOrder changed the block count");
 			for (uint32_t i = 0; i < n; i++)
-				sym_assert(hdr.GetBlock<NiObject>(order[i]) == s.objs[i], "C06-order: block i is not at position order[i] after SetBlockOrder");
+				C06_ASSERT(hdr.GetBlock<NiObject>(order[i]) == s.objs[i], "C06-order: block i is not at position order[i] after SetBlockOrder");
 			check_edit(nif, s, nullptr, nullptr);
 		}
 		else if (op == 4) {
@@ -154,9 +159,9 @@ extern "C" void h_c06(int ver, int feat, int nops, int firstOp) {
 			for (size_t j = 0; j < s.objs.size(); j++) {
 				bool gone = index_of(hdr, s.objs[j]) < 0;
 				if (s.names[j] != tn)
-					sym_assert(!gone, "C06-bytype-other: DeleteBlockByType removed a block of another type");
+					C06_ASSERT(!gone, "C06-bytype-other: DeleteBlockByType removed a block of another type");
 				else if (!orphaned)
-					sym_assert(gone, "C06-bytype-all: DeleteBlockByType left a block of that type");
+					C06_ASSERT(gone, "C06-bytype-all: DeleteBlockByType left a block of that type");
 			}
 			check_edit(nif, s, nullptr, nullptr);
 		}
@@ -164,29 +169,29 @@ extern "C" void h_c06(int ver, int feat, int nops, int firstOp) {
 			NiNode* root = nif.GetRootNode();
 			nif.DeleteUnreferencedBlocks();
 			if (root)
-				sym_assert(index_of(hdr, root) >= 0, "C06-prune-root: pruning deleted the root");
+				C06_ASSERT(index_of(hdr, root) >= 0, "C06-prune-root: pruning deleted the root");
 			for (auto& rc : s.recs)
 				if (rc.target && index_of(hdr, rc.target) < 0)
-					sym_assert(index_of(hdr, rc.owner) < 0, "C06-prune-referenced: pruning deleted a block that a surviving block references");
+					C06_ASSERT(index_of(hdr, rc.owner) < 0, "C06-prune-referenced: pruning deleted a block that a surviving block references");
 			check_edit(nif, s, nullptr, nullptr);
 		}
 	}
 	// the edited model saves and reloads to an equivalent graph
 	FmRange f = fm_save(nif, true);
-	sym_assert(f.rc == 0, "C06-save: saving the edited model failed");
+	C06_ASSERT(f.rc == 0, "C06-save: saving the edited model failed");
 	check_tables(nif, f, true); // C07: the header tables of the file written after the edits
 	NifFile re;
 	int rc = fm_load(re, f);
-	sym_assert(rc == 0, "C06-reload: the edited model does not reload");
+	C06_ASSERT(rc == 0, "C06-reload: the edited model does not reload");
 	NiHeader& h2 = re.GetHeader();
-	sym_assert(h2.GetNumBlocks() == hdr.GetNumBlocks(), "C06-reload-count: reloaded block count differs");
+	C06_ASSERT(h2.GetNumBlocks() == hdr.GetNumBlocks(), "C06-reload-count: reloaded block count differs");
 	for (uint32_t i = 0; i < hdr.GetNumBlocks() && i < h2.GetNumBlocks(); i++)
-		sym_assert(std::string(h2.GetBlock<NiObject>(i)->GetBlockName()) == hdr.GetBlock<NiObject>(i)->GetBlockName(), "C06-reload-type: reloaded block has another type");
+		C06_ASSERT(std::string(h2.GetBlock<NiObject>(i)->GetBlockName()) == hdr.GetBlock<NiObject>(i)->GetBlockName(), "C06-reload-type: reloaded block has another type");
 	auto r1 = fm_all_refs(nif);
 	auto r2 = fm_all_refs(re);
-	sym_assert(r1.size() == r2.size(), "C06-reload-refs: reloaded graph has a different number of references");
+	C06_ASSERT(r1.size() == r2.size(), "C06-reload-refs: reloaded graph has a different number of references");
 	for (size_t i = 0; i < r1.size() && i < r2.size(); i++)
-		sym_assert(r1[i].ref->index == r2[i].ref->index, "C06-reload-ref: a reference designates another block after save+reload");
+		C06_ASSERT(r1[i].ref->index == r2[i].ref->index, "C06-reload-ref: a reference designates another block after save+reload");
 	sym_reach("end");
 }
 
